@@ -145,7 +145,7 @@ pub fn run(tape: &[u8], ctx: &mut Ctx) {
 	// (b) structured damage
 	let nb = rf.blocks.len();
 	if nb > 0 {
-		for round in 0..6 {
+		for round in 0..7 {
 			let bi = t.below(nb);
 			let b = &rf.blocks[bi];
 			let mut bad = bytes.clone();
@@ -184,6 +184,15 @@ pub fn run(tape: &[u8], ctx: &mut Ctx) {
 					bad.splice(b.offset..b.data_offset, hdr);
 					what = if round == 3 { "size-too-large".to_string() } else { "size-too-small".to_string() };
 				}
+				5 => {
+					// a negative object count: a framing error, reported once, then end of stream
+					let newc = -(1 + t.below(3) as i64);
+					let mut hdr = Vec::new();
+					write_long(newc, &mut hdr);
+					write_long(b.size as i64, &mut hdr);
+					bad.splice(b.offset..b.data_offset, hdr);
+					what = "count-negative".to_string();
+				}
 				_ => {
 					if h.codec != Codec::Snappy || b.size < 5 {
 						continue;
@@ -194,7 +203,7 @@ pub fn run(tape: &[u8], ctx: &mut Ctx) {
 				}
 			}
 			// zero-sized objects make count changes undetectable by construction (nothing to disagree with)
-			if what.starts_with("count") && b.data.is_empty() {
+			if what.starts_with("count-too") && b.data.is_empty() {
 				continue;
 			}
 			if ref_parse(&bad).and_then(|f| ref_values(&env, &h.case.schema, &f)).is_ok() {
@@ -224,8 +233,44 @@ pub fn run(tape: &[u8], ctx: &mut Ctx) {
 				if !ok && what != "snappy-bit-flip" {
 					ctx.violation(format!("C17/damage-yields-unwritten-value/{what}/{how}"), format!("schema {} {outline}: block {bi} {what}: returned {:?}, written {:?}", h.case.json, got, want));
 				}
+				if what == "count-negative" {
+					// everything before the damaged block, then exactly one error, then end of stream
+					let before: usize = rf.blocks[..bi].iter().map(|b| b.count as usize).sum();
+					let errs = nexts.iter().filter(|n| matches!(n, Next::Err(_))).count();
+					let first_err = nexts.iter().position(|n| matches!(n, Next::Err(_)));
+					let after_ok = first_err.map_or(false, |p| nexts[p + 1..].iter().all(|n| matches!(n, Next::End)));
+					if got.len() != before || errs != 1 || !after_ok {
+						ctx.violation(format!("C17/framing-error-not-once-then-end/{how}"), format!("schema {} {outline}: block {bi} given the object count {}: expected the {before} earlier values, one error, then end of stream; got {:?}", h.case.json, -1, trunc(&format!("{nexts:?}"), 500)));
+					}
+				}
 				if !nexts.iter().any(|n| matches!(n, Next::Err(_))) {
 					ctx.violation(format!("C17/damage-not-reported/{what}/{}/{how}", h.codec.name()), format!("schema {} {outline}: block {bi} (count {}, size {}) {what}: no error in {:?}", h.case.json, b.count, b.size, trunc(&format!("{nexts:?}"), 400)));
+				}
+			}
+		}
+	}
+	// (a') a block of 64-200 objects (its count needs a two-byte varint), cut at every offset of its header
+	if let Some(small) = h.encoded.iter().position(|e| e.len() <= 12) {
+		let n = 64 + t.below(137);
+		let mut file = bytes[..rf.header_len].to_vec();
+		let mut data = Vec::new();
+		for _ in 0..n {
+			data.extend_from_slice(&h.encoded[small]);
+		}
+		let block_at = file.len();
+		ref_write_block(&mut file, h.codec, n, &data, &rf.sync);
+		let want_n: Vec<&MValue> = std::iter::repeat(&h.values[small]).take(n).collect();
+		ctx.label("file:block-of-64+-objects");
+		for cut in block_at..(block_at + 6).min(file.len()) {
+			for via_reader in [false, true] {
+				evals += 1;
+				let part = &file[..cut];
+				let r = if via_reader { read_bufread(&env, &h.case.schema, ChunkedReader::uniform(part, chunk), &cfg, n + 4) } else { read_slice(&env, &h.case.schema, part, &cfg, n + 4) };
+				let how = if via_reader { "reader" } else { "slice" };
+				if let Ok((nexts, _)) = r {
+					if let Err(e) = check_prefix_then_stop(&nexts, &want_n) {
+						ctx.violation(format!("C17/truncation/{}/{how}", h.codec.name()), format!("schema {} one block of {n} objects, file of {} bytes cut at {cut} (block header starts at {block_at}): {e}; sequence {:?}", h.case.json, file.len(), trunc(&format!("{nexts:?}"), 300)));
+					}
 				}
 			}
 		}
